@@ -154,7 +154,7 @@ def parse(text, label, ordered_labels=None):
 
     b = body_nocarry
     # heading words before the verb ("Total other income. Add lines ...", "Income limitation. Multiply ...")
-    lead = re.match(r'^(?!(?:Add|Combine|Subtract|Multiply|Enter|If line|Divide|Figure)\b)(?:[A-Z][^.]*?\.\s+){1,3}?(?=(?:Add|Combine|Subtract|Multiply|Enter|If line|Divide|Figure)\b)', b)
+    lead = re.match(r'^(?!(?:Add|Combine|Subtract|Multiply|Enter|If line|Divide|Figure|Total amount)\b)(?:[A-Z][^.]*?\.\s+){1,3}?(?=(?:Add|Combine|Subtract|Multiply|Enter|If line|Divide|Figure|Total amount)\b)', b)
     if lead:
         b = b[lead.end():]
 
@@ -172,6 +172,28 @@ def parse(text, label, ordered_labels=None):
                 if fm:
                     expr = ('cap0', expr)
                     rest = rest[fm.end():]
+    if expr is None:
+        # payer statements: "Add the amounts in box 1 of all Forms W-2." /
+        # "Add the amounts in boxes 1 and 3 of all Forms 1099-INT and box 12 of all Forms 1099-DIV."
+        m = re.match(r'^Add the amounts in (?P<g>box(?:es)? [^.]*? of all Forms [^.]*?)\.(?:\s|$)', b)
+        if m:
+            groups = []
+            ok = True
+            for part in re.split(r',? and (?=box)', m.group('g')):
+                pm = re.match(r'^box(?:es)? (?P<boxes>[0-9a-z_]+(?:(?:, | and |, and )[0-9a-z_]+)*) of all Forms (?P<forms>(?:W-2|1098|1099-[A-Z]+)(?:(?:, | and |, and )(?:W-2|1098|1099-[A-Z]+))*)$', part)
+                if not pm:
+                    ok = False
+                    break
+                boxes = [x for x in re.split(r', and |, | and ', pm.group('boxes')) if x]
+                for fm in re.split(r', and |, | and ', pm.group('forms')):
+                    groups.append((fm.lower(), ['box_' + x for x in boxes]))
+            if ok and groups:
+                done(('sumstmt', groups), m, b)
+    if expr is None:
+        # template wording of Form 8959 / Form 1040 line 1a
+        m = re.match(r'^(?:Total amount|[A-Z][A-Za-z ]+?) from Form(?:\(s\))? (?P<f>W-2), box (?P<n>\d+)\b(?P<tail>[^.]*\.)(?P<more> If you have more than one Form W-2, enter the total of the amounts from box (?P<n2>\d+)\.)?', b)
+        if m and (m.group('n2') in (None, m.group('n'))) and re.match(r'^\s*(?:\(see instructions\))?\s*\.$', m.group('tail')):
+            done(('sumstmt', [(m.group('f').lower(), ['box_' + m.group('n')])]), m, b)
     if expr is None:
         m = re.match(rf'^Add (?P<f1>Form 1040)(?: or 1040-SR)?, line (?P<a>{LAB}),? and (?P<f2>Form 1040)(?: or 1040-SR)?, line (?P<b>{LAB})\.', b)
         if m:
@@ -267,8 +289,8 @@ def evaluate(expr, get, tax=None):
     k = expr[0]
     if k == 'tax':
         return None if tax is None else tax(get(expr[1]))
-    if k == 'addf':
-        return None            # operands live on another form: resolved by the caller (end-to-end only)
+    if k in ('addf', 'sumstmt'):
+        return None            # operands live on another form / on the payer statements: resolved by the caller (end-to-end only)
     if k == 'floor0':
         r = evaluate(expr[1], get)
         return None if r is None else max(0.0, r)
